@@ -6,8 +6,20 @@
 //! widens the race. After quiescence (and across a restart) the log is judged by the repo's
 //! own validator, by an independent parser, by exactly-once of acknowledged ids, and by
 //! sidecar == log-filtered.
+//!
+//! Session streams under HOSTILE PROVIDER BEHAVIOUR: about half of the histories open the engine
+//! with a scripted provider (`c01_provider.rs`), so that prompt runs stream real provider
+//! responses — LF / CRLF / mixed framing, comments, multi-line data, tool calls the run executes —
+//! that fail in every way a provider connection can fail (reset after k body bytes with k around
+//! every event terminator, short Content-Length body, early clean end, HTTP errors, headers only,
+//! empty body, no `[DONE]`, not an event stream). A deterministic grid (framing × fault × cut
+//! class, one run per cell) runs first on every run; the same oracle judges every log.
+
+#[path = "c01_provider.rs"]
+mod hostile;
 
 use crate::fixture::{runtime, wait_for, App, Store};
+use crate::provider::{Provider, Recorded, Reply};
 use crate::gen_hist::{default_weights, exec, pick_kind, Known, OpKind};
 use crate::prng::Rng;
 use crate::report::{Cfg, Report};
@@ -23,14 +35,19 @@ pub fn run(cfg: &Cfg) -> i32 {
         "C01",
         "exploration",
         "seeded concurrent histories (2–16 actor threads over 1–4 continuities + sessions + tasks via the router, \
-         noise delays at log.append.* / cont.cache.* / *.emit.* hook points, 0–1 restarts); a case is non-trivial \
-         when ≥2 threads appended to one continuity; distinct = distinct interleaving signatures of the recorded \
-         hook-point sequence",
+         noise delays at log.append.* / cont.cache.* / *.emit.* hook points, 0–1 restarts); in about half of the \
+         histories the prompt runs talk to a scripted provider whose every reply carries a seeded framing (LF/CRLF/mixed) \
+         and a seeded fault (reset at k / short content-length / early end / HTTP error / headers only / empty / no [DONE]), \
+         k mostly from the hostile cut set around event terminators; plus a deterministic grid framing × fault × cut class \
+         (one provider run per cell); a case is non-trivial when ≥2 threads appended to one continuity (grid cell: the \
+         provider served the scripted reply); distinct = distinct interleaving signatures of the recorded hook-point \
+         sequence (grid: distinct cells)",
     );
     r.assume("hook points do not change behaviour beyond timing");
     r.assume("schedules are those the OS scheduler + injected delays produce (not exhaustive)");
     let s = sched();
     let rt = runtime(8);
+    provider_grid(cfg, &mut r, &s, &rt);
     let mut case = 0u64;
     let max_cases = cfg.tier.pick(400u64, 1_000_000u64);
     while case < max_cases && !r.over(cfg) {
@@ -47,12 +64,16 @@ pub fn run(cfg: &Cfg) -> i32 {
     r.finish(cfg)
 }
 
+/// replies scripted per history (the provider serves reply `request index % PLAN_LEN`)
+const PLAN_LEN: usize = 48;
+
 struct Shared {
     conts: Mutex<Vec<String>>,
     acked: Mutex<Vec<String>>,
 }
 
 fn one_history(cfg: &Cfg, r: &mut Report, s: &Arc<Sched>, rt: &tokio::runtime::Runtime, rng: &mut Rng, idx: u64) {
+    let t_hist = std::time::Instant::now();
     let store = Store::new("c01");
     let threads = match rng.below(4) {
         0 => 2,
@@ -66,6 +87,19 @@ fn one_history(cfg: &Cfg, r: &mut Report, s: &Arc<Sched>, rt: &tokio::runtime::R
     let n_tasks = rng.usize(3);
     let restart = rng.chance(1, 3);
     let noise_us = [0u64, 300, 1500, 3000][rng.usize(4)];
+    // hostile provider dimension: a stream of its own, so that the histories without provider stay what they were
+    let mut prng = cfg.case_rng(idx.wrapping_add(1 << 40));
+    let with_provider = prng.bool();
+    let n_sessions = if with_provider { 2 + prng.usize(5) } else { n_sessions };
+    let plan: Arc<Vec<hostile::Planned>> =
+        Arc::new(if with_provider { (0..PLAN_LEN).map(|j| hostile::plan_reply(&mut prng, j)).collect() } else { Vec::new() });
+    let provider = if with_provider {
+        let plan = plan.clone();
+        Some(Provider::start(Arc::new(move |rec: &Recorded| plan[rec.index % plan.len()].reply.clone())))
+    } else {
+        None
+    };
+    let pcfg = provider.as_ref().map(|p| hostile::provider_cfg(&p.endpoint()));
 
     s.reset();
     s.record(true, &["log.append.locked", "cont.cache.enter", "cont.cache.exit"]);
@@ -93,7 +127,7 @@ fn one_history(cfg: &Cfg, r: &mut Report, s: &Arc<Sched>, rt: &tokio::runtime::R
     let total_phases = if restart { 2 } else { 1 };
     while phases < total_phases {
         phases += 1;
-        let app = match App::open(&store, None) {
+        let app = match App::open(&store, pcfg.clone()) {
             Ok(a) => a,
             Err(e) => {
                 r.violation(
@@ -167,7 +201,9 @@ fn one_history(cfg: &Cfg, r: &mut Report, s: &Arc<Sched>, rt: &tokio::runtime::R
             for i in 0..n_sessions {
                 let app = app2.clone();
                 let c0 = c0.clone();
-                let content = match srng.below(3) {
+                // with a provider most inputs are prompts (they reach the provider); tool envelopes never do
+                let input_kind = if with_provider && srng.chance(2, 3) { 2 } else { srng.below(3) };
+                let content = match input_kind {
                     0 => json!({"tool":"write","args":{"path": format!("s{i}.txt"), "content": format!("x{i}")}}).to_string(),
                     1 => json!({"tool":"bash","args":{"command": format!("echo out{i}; echo err{i} 1>&2")}}).to_string(),
                     _ => format!("plain prompt {i}"),
@@ -270,17 +306,40 @@ fn one_history(cfg: &Cfg, r: &mut Report, s: &Arc<Sched>, rt: &tokio::runtime::R
         }
         drop(app);
         // judge at every restart boundary
-        if judge(r, &store, &shared, idx, phases, threads, noise_us) {
+        let served = provider.as_ref().map(|p| p.request_count()).unwrap_or(0);
+        let ctx = json!({
+            "with_provider": with_provider,
+            "provider_replies_served_in_request_order": (0..served).map(|i| plan[i % plan.len()].witness()).collect::<Vec<_>>(),
+        });
+        if judge(r, &store, &shared, idx, phases, threads, noise_us, &ctx) {
             failed = true;
             break;
         }
     }
     let events = s.take_events();
     s.reset();
+    let served = provider.as_ref().map(|p| p.request_count()).unwrap_or(0);
+    drop(provider);
     if failed {
         return;
     }
     r.eval();
+    r.count(if with_provider { "wall_ms_histories_with_provider" } else { "wall_ms_histories_without_provider" }, t_hist.elapsed().as_millis() as u64);
+    if with_provider {
+        r.count("provider_histories", 1);
+        r.count("provider_requests_served", served as u64);
+        for i in 0..served {
+            let p = &plan[i % plan.len()];
+            r.count(&format!("provider_reply_fault/{}", p.fault), 1);
+            r.count(&format!("provider_reply_framing/{}", p.framing), 1);
+            if let Some((_, class)) = p.cut {
+                r.count(&format!("provider_cut@{class}"), 1);
+            }
+            if p.tool.is_some() {
+                r.count("provider_replies_with_tool_call", 1);
+            }
+        }
+    }
     // non-trivial: ≥2 threads appended to one continuity
     let mut per_cont: HashMap<&str, std::collections::HashSet<u64>> = HashMap::new();
     for e in &events {
@@ -303,16 +362,168 @@ fn one_history(cfg: &Cfg, r: &mut Report, s: &Arc<Sched>, rt: &tokio::runtime::R
         r.sample(json!({
             "case": idx, "threads": threads, "ops_per_thread": ops_per, "continuities": n_conts,
             "router_sessions": n_sessions, "tasks": n_tasks, "restart": restart, "noise_us": noise_us,
+            "scripted_provider": with_provider, "provider_requests_served": served,
             "ops": ops, "hook_events": events.len(), "acked_ids": acked,
         }));
     }
 }
 
+const GRID_BASE: u64 = 1 << 32;
+
+/// Deterministic part of the hostile-provider dimension: one provider-facing run per cell of
+/// framing × fault × cut class (`hostile::grid`), each in a store of its own, judged by `judge`.
+fn provider_grid(cfg: &Cfg, r: &mut Report, s: &Arc<Sched>, rt: &tokio::runtime::Runtime) {
+    let cells = hostile::grid();
+    let slot: Arc<Mutex<(Vec<Reply>, usize)>> = Arc::new(Mutex::new((Vec::new(), 0)));
+    let slot2 = slot.clone();
+    let provider = Provider::start(Arc::new(move |_rec: &Recorded| {
+        let mut g = slot2.lock().unwrap();
+        let i = g.1;
+        g.1 += 1;
+        if g.0.is_empty() {
+            Reply::status(500, "{\"error\":\"c01 grid: no reply scripted\"}")
+        } else {
+            g.0[i.min(g.0.len() - 1)].clone()
+        }
+    }));
+    let pcfg = hostile::provider_cfg(&provider.endpoint());
+    s.reset();
+    let shared = Shared { conts: Mutex::new(Vec::new()), acked: Mutex::new(Vec::new()) };
+    r.note("grid_cells_total", json!(cells.len()));
+    let mine: Vec<usize> = (0..cells.len()).filter(|i| cfg.mine(*i as u64)).collect();
+    // cells run one after the other (the provider serves the replies of exactly one cell at a time); a batch of cells
+    // shares one store, which is judged as a whole once its runs have ended
+    for batch in mine.chunks(16) {
+        if r.elapsed() > cfg.budget_s * 0.3 {
+            r.count("grid_cells_skipped_over_budget", batch.len() as u64);
+            continue;
+        }
+        let store = Store::new("c01g");
+        let app = match App::open(&store, Some(pcfg.clone())) {
+            Ok(a) => a,
+            Err(e) => {
+                r.inconclusive(&format!("grid: cannot open engine: {e}"));
+                continue;
+            }
+        };
+        let Ok(c0) = app.store().ensure_default() else {
+            r.inconclusive("grid: ensure_default failed");
+            continue;
+        };
+        let log_path = store.log_path();
+        // (cell, session id, requests served)
+        let mut ran: Vec<(usize, String, usize)> = Vec::new();
+        let mut live_writer = false;
+        for &i in batch {
+            let cell = &cells[i];
+            *slot.lock().unwrap() = (cell.replies.iter().map(|p| p.reply.clone()).collect(), 0);
+            let app2 = app.clone();
+            let c0 = c0.clone();
+            let log_path = log_path.clone();
+            let ended: Result<String, String> = rt.block_on(async move {
+                let (st, v) = app2
+                    .json("POST", &format!("/threads/{c0}/messages"), Some(&json!({"content": format!("grid cell {i}")})))
+                    .await;
+                let sid = v.get("session_id").and_then(|x| x.as_str()).unwrap_or("").to_string();
+                if st != 202 || sid.is_empty() {
+                    return Err(format!("POST /threads/{{id}}/messages -> {st}"));
+                }
+                let mut tail = 0usize;
+                let done = wait_for(Duration::from_secs(20), || {
+                    let bytes = std::fs::read(&log_path).unwrap_or_default();
+                    let text = String::from_utf8_lossy(&bytes[tail.min(bytes.len())..]);
+                    if text.lines().any(|l| l.contains("\"type\":\"continuity_run_ended\"") && l.contains(sid.as_str())) {
+                        return Some(());
+                    }
+                    // whole lines already looked at need not be looked at again
+                    tail = bytes.iter().rposition(|b| *b == b'\n').map(|p| p + 1).unwrap_or(0);
+                    None
+                })
+                .await
+                .is_some();
+                if done {
+                    Ok(sid)
+                } else {
+                    Err("run did not end within the watchdog".to_string())
+                }
+            });
+            match ended {
+                Ok(sid) => ran.push((i, sid, slot.lock().unwrap().1)),
+                Err(why) => {
+                    // never judged: a writer may still be active on this store
+                    r.inconclusive(&format!("grid cell {i} ({}): {why}", cell.desc));
+                    live_writer = true;
+                    break;
+                }
+            }
+        }
+        std::thread::sleep(Duration::from_millis(20));
+        drop(app);
+        if live_writer {
+            continue;
+        }
+        let parsed = truth::parse_log(&store.log_bytes_settled()).ok();
+        // the witness names the first cell whose own session stream is not numbered 0,1,2,…
+        let mut suspect: Option<usize> = None;
+        for (i, sid, served) in &ran {
+            let cell = &cells[*i];
+            r.eval();
+            r.count("grid_cells_run", 1);
+            r.count("grid_provider_requests_served", *served as u64);
+            if *served == 0 {
+                r.inconclusive(&format!("grid cell {i} ({}): the run never reached the provider", cell.desc));
+                continue;
+            }
+            r.distinct_str(&format!("grid|{}", cell.desc));
+            let Some(frames) = parsed.as_ref() else {
+                continue;
+            };
+            let mine = truth::stream(frames, "session", sid);
+            if suspect.is_none() && mine.iter().enumerate().any(|(k, f)| f.seq() != k as u64) {
+                suspect = Some(*i);
+            }
+            // did the scripted fault arrive as what it is meant to be? (evidence only)
+            let transport_errors = mine
+                .iter()
+                .filter(|f| {
+                    f.ty() == "provider_event"
+                        && f.v.get("errors").and_then(|e| e.as_array()).map(|a| !a.is_empty()).unwrap_or(false)
+                        && f.v.get("data").map(|d| d.is_null()).unwrap_or(true)
+                        && f.v.get("raw").map(|d| d.is_null()).unwrap_or(true)
+                })
+                .count();
+            let provider_events = mine.iter().filter(|f| f.ty() == "provider_event").count();
+            let resets = cell.replies.iter().take(*served).filter(|p| p.fault.starts_with("reset_")).count();
+            if resets > 0 {
+                r.count(
+                    if transport_errors > 0 { "grid_reset_cells_seen_as_transport_error" } else { "grid_reset_cells_NOT_seen_as_transport_error" },
+                    1,
+                );
+                if provider_events > transport_errors {
+                    r.count("grid_reset_cells_with_frames_from_bytes_before_the_cut", 1);
+                }
+            }
+            r.count("grid_session_frames", mine.len() as u64);
+        }
+        let ctx = json!({
+            "grid_cells_in_this_store": ran.iter().map(|(i, sid, served)| json!({"cell": i, "desc": cells[*i].desc, "session": sid, "requests_served": served})).collect::<Vec<_>>(),
+            "first_cell_with_misnumbered_session_stream": suspect.map(|i| json!({
+                "cell": i, "desc": cells[i].desc,
+                "provider_replies_in_request_order": cells[i].replies.iter().map(|p| p.witness()).collect::<Vec<_>>(),
+            })),
+        });
+        judge(r, &store, &shared, GRID_BASE + batch[0] as u64, 1, 0, 0, &ctx);
+    }
+    drop(provider);
+    r.count("grid_wall_ms", (r.elapsed() * 1000.0) as u64);
+}
+
 /// Returns true when a violation was reported.
-fn judge(r: &mut Report, store: &Store, shared: &Shared, idx: u64, phase: u32, threads: usize, noise_us: u64) -> bool {
+#[allow(clippy::too_many_arguments)]
+fn judge(r: &mut Report, store: &Store, shared: &Shared, idx: u64, phase: u32, threads: usize, noise_us: u64, ctx: &Value) -> bool {
     let bytes = store.log_bytes_settled();
     let witness = |extra: Value| {
-        json!({"case": idx, "phase": phase, "threads": threads, "noise_us": noise_us, "detail": extra})
+        json!({"case": idx, "phase": phase, "threads": threads, "noise_us": noise_us, "detail": extra, "context": ctx})
     };
     let frames = match truth::parse_log(&bytes) {
         Ok(f) => f,
@@ -383,5 +594,33 @@ fn judge(r: &mut Report, store: &Store, shared: &Shared, idx: u64, phase: u32, t
         }
     }
     r.count("frames_judged", frames.len() as u64);
+    // what the provider-facing runs left in their session streams (evidence only)
+    let mut pe = 0u64;
+    let mut terr = 0u64;
+    for f in &frames {
+        if f.stream_kind() != "session" {
+            continue;
+        }
+        match f.ty() {
+            "provider_event" => {
+                pe += 1;
+                let has_err = f.v.get("errors").and_then(|e| e.as_array()).map(|a| !a.is_empty()).unwrap_or(false);
+                if has_err && f.v.get("data").map(|d| d.is_null()).unwrap_or(true) && f.v.get("raw").map(|d| d.is_null()).unwrap_or(true) {
+                    terr += 1;
+                }
+            }
+            "session_ended" => {
+                if f.v.get("reason").and_then(|x| x.as_str()) == Some("provider_error") {
+                    r.count("session_streams_ended_with_provider_error", 1);
+                }
+            }
+            "openresponses_request_started" => r.count("session_provider_requests_framed", 1),
+            _ => {}
+        }
+    }
+    if pe > 0 {
+        r.count("session_provider_event_frames_judged", pe);
+        r.count("session_transport_error_frames_judged", terr);
+    }
     false
 }
